@@ -135,13 +135,15 @@ Definition gcase_model_ok (c : gcase) : bool :=
 
 (* ---------------------------------------------------------------- (e) end to end through the real proxy *)
 (* what the client must observe, derived from the origin's script alone *)
-Record xexp := { x_code : N; x_reason : option str; x_fields : list (str * list str); x_absent : list str; x_body : str; x_trailers : list (str * list str);
+Record xexp := { x_local : bool; x_code : N; x_reason : option str; x_fields : list (str * list str); x_absent : list str; x_body : str; x_trailers : list (str * list str);
                  x_origin : hmap; x_skip : list str }.
 (* x_origin / x_skip (used when response-header rules are configured): every header field of the origin's reply under its canonical name, and
    the names the rule oracle does not judge (hop-by-hop and framing fields) *)
-(* x_reason: the origin's reason phrase (None: not compared — net/http's server writes its own in the http.Handler variant) *)
+(* x_local: the proxy answers this request itself (407 challenge, 403 denial): only the status is expected.
+   x_reason: the origin's reason phrase (None: not compared — net/http's server writes its own in the http.Handler variant) *)
 (* x_absent: hop-by-hop field names (RFC 7230 6.1 and those nominated by the origin's Connection field) that must not reach the client *)
 Record exch := {
+  e_local : bool;           (* the response was generated by the proxy itself (modifyErrorResponse path) *)
   e_closing : bool;         (* the proxy was shutting down when the response was written (p.closing()) *)
   e_req : req;
   e_snap : resp;            (* the *http.Response as the innermost response modifier saw it (header before the
@@ -157,7 +159,8 @@ Record ecase := {
   e_stream : str;           (* every byte the client received on the connection *)
   e_closed : bool;          (* the proxy closed the connection *)
   e_broken : bool;
-  e_must_complete : bool }. (* scenario whose every exchange must be answered on this one connection: nothing in it
+  e_must_complete : bool;
+  e_stray : N }.            (* requests that reached the origin for this connection although the client never sent them *) (* scenario whose every exchange must be answered on this one connection: nothing in it
                                (client version, Connection options, framing of the origin) permits the proxy to close *)        (* the origin's reply to the next exchange (not in e_exchs) broke after its head had been
                                sent (malformed chunk-size line, corrupt gzip the proxy had solicited): e_stream ends
                                with what the proxy had relayed of it *)
@@ -169,8 +172,19 @@ Definition mkrule (a : N) (n v : str) : G16.Model.rule :=
                         else if a =? 3 then G16.Model.Add else G16.Model.RenameCase) n v.
 Definition ruled (rules : list G16.Model.rule) (q : req) (h : hmap) : hmap :=
   if str_eqb (q_method q) (b "CONNECT") then h else G16.Model.apply_rules rules h.
+(* an error response of the proxy's own goes through the same modifiers; afterwards its Proxy-Authenticate
+   challenge (hop-by-hop, hence removed) is put back (proxy.go modifyErrorResponse) *)
+Definition keep_challenge (before after : hmap) : hmap :=
+  if er_keeps_challenge then
+    match raw_get (b "Proxy-Authenticate") before with
+    | Some (v :: vs) => raw_set (b "Proxy-Authenticate") (v :: vs) after
+    | _ => after
+    end
+  else after.
 Definition exch_resp (rules : list G16.Model.rule) (e : exch) : resp :=
-  set_hdr (e_snap e) (remove_hop_by_hop (ruled rules (e_req e) (r_hdr (e_snap e)))).
+  let h := r_hdr (e_snap e) in
+  let h' := remove_hop_by_hop (ruled rules (e_req e) h) in
+  set_hdr (e_snap e) (if e_local e then keep_challenge h h' else h').
 Definition exch_wire (rules : list G16.Model.rule) (e : exch) : str :=
   resp_wire (e_closing e) (e_req e) (exch_resp rules e) (e_order e).
 Fixpoint survive_ok (rules : list G16.Model.rule) (closed : bool) (want : N) (i : N) (es : list exch) : bool :=
@@ -207,6 +221,7 @@ Definition ecase_model_ok (c : ecase) : bool :=
 Definition values_match (got : list (str * str)) (want : str * list str) : bool :=
   list_str_eqb (field_values (fst want) got) (snd want).
 Definition obs_matches (o : obs) (x : xexp) : bool :=
+  if x_local x then o_code o =? x_code x else
   (o_code o =? x_code x) &&
   match x_reason x with Some t => str_eqb (o_reason o) t | None => true end &&
   forallb (values_match (o_fields o)) (x_fields x) &&
@@ -237,7 +252,7 @@ Fixpoint all_match (rules : list G16.Model.rule) (os : list obs) (es : list exch
 Definition ecase_prop_ok (c : ecase) : bool :=
   match client_parse_seq (e_v11 c) (map (fun e => q_method (e_req e)) (e_exchs c)) (e_stream c) with
   | Some (os, rest) =>
-      all_match (e_rules c) os (e_exchs c) &&
+      all_match (e_rules c) os (e_exchs c) && (e_stray c =? 0) &&
       (if e_broken c
        then (* a response that cannot be completed must be the last thing on the connection *)
             e_closed c
@@ -273,7 +288,8 @@ Definition ecase_absent_ok (c : ecase) : bool :=
    3 an end-to-end field is missing or changed, 4 a hop-by-hop field reaches the client, 5 body, 6 trailers,
    7 the connection was kept after a response that could not be completed,
    8 the proxy closed a connection on which every exchange had to be answered,
-   9 a configured response-header rule was not applied as documented *)
+   9 a configured response-header rule was not applied as documented,
+   10 a request the client never sent reached an origin *)
 Definition obs_why (o : obs) (x : xexp) : N :=
   if negb ((o_code o =? x_code x) && match x_reason x with Some t => str_eqb (o_reason o) t | None => true end) then 2
   else if negb (forallb (values_match (o_fields o)) (x_fields x)) then 3
@@ -293,6 +309,7 @@ Fixpoint all_why (rules : list G16.Model.rule) (os : list obs) (es : list exch) 
 Definition ecase_why (c : ecase) : N :=
   match client_parse_seq (e_v11 c) (map (fun e => q_method (e_req e)) (e_exchs c)) (e_stream c) with
   | Some (os, rest) =>
+      if negb (e_stray c =? 0) then 10 else
       if e_broken c then (let w := all_why (e_rules c) os (e_exchs c) in if negb (w =? 0) then w else if e_closed c then 0 else 7)
       else if nonempty rest then 1
       else let w := all_why (e_rules c) os (e_exchs c) in
